@@ -198,6 +198,8 @@ func runC11(r *mc.Run) {
 		r.Eval(id, c.Deviations() > 0, lvlName[level]+":"+out)
 	})
 
+	c11SignatureShapes(r)
+
 	// genuine Intel samples
 	now := world.TimeSetAt(intelRefTime)
 	// (the recorded sample collateral is newer than the sample quote and, as the repository's own
@@ -244,4 +246,106 @@ func c11Dims(c *mc.Ctx) string {
 		}
 	}
 	return strings.Join(out, "+")
+}
+
+// c11SignatureShapes: every raw r||s signature the verifier converts itself (quote signature, QE report
+// signature, TCB Info signature, QE Identity signature) with r or s of every leading-byte shape: the
+// deterministic signer walks its nonce sequence until the wanted shape appears, so each world is still
+// honestly signed and must be accepted.
+func c11SignatureShapes(r *mc.Run) {
+	type shape struct {
+		name string
+		ok   func(v []byte) bool
+	}
+	shapes := []shape{
+		{"00,>=80", func(v []byte) bool { return v[0] == 0 && v[1] >= 0x80 }},
+		{"00,<80", func(v []byte) bool { return v[0] == 0 && v[1] < 0x80 && v[1] != 0 }},
+		{">=80", func(v []byte) bool { return v[0] >= 0x80 }},
+		{"01..7f", func(v []byte) bool { return v[0] > 0 && v[0] < 0x80 }},
+		{"7f,ff", func(v []byte) bool { return v[0] == 0x7f && v[1] >= 0x80 }},
+		{"80,00..", func(v []byte) bool { return v[0] == 0x80 && v[1] < 0x80 }},
+	}
+	if r.Thorough() {
+		shapes = append(shapes, shape{"00,00", func(v []byte) bool { return v[0] == 0 && v[1] == 0 }},
+			shape{"last-byte-00", func(v []byte) bool { return v[31] == 0 && v[0] == 0 }})
+	}
+	sigs := []string{"quote-signature", "qe-report-signature", "tcbinfo-signature", "qe-identity-signature"}
+	type cs struct {
+		sig    int
+		rs, ss int // shape of r, shape of s; -1 = any
+	}
+	var cases []cs
+	for g := range sigs {
+		for i := range shapes {
+			cases = append(cases, cs{g, i, -1}, cs{g, -1, i})
+		}
+		if r.Thorough() { // both halves short at once
+			cases = append(cases, cs{g, 0, 0}, cs{g, 0, 1}, cs{g, 1, 0})
+		}
+	}
+	att := world.NewKey("att")
+	done := r.Parallel(len(cases), func(i int) {
+		c := cases[i]
+		nm := func(k int) string {
+			if k < 0 {
+				return "any"
+			}
+			return shapes[k].name
+		}
+		base := fmt.Sprintf("sigshape/%s/r=%s/s=%s", sigs[c.sig], nm(c.rs), nm(c.ss))
+		if !r.Want(base+"/L0") && !r.Want(base+"/L1") && !r.Want(base+"/L2") {
+			return
+		}
+		pred := func(rb, sb []byte) bool {
+			return (c.rs < 0 || shapes[c.rs].ok(rb)) && (c.ss < 0 || shapes[c.ss].ok(sb))
+		}
+		w := world.Honest("T")
+		p := w.Parts.Clone()
+		var sig []byte
+		switch c.sig {
+		case 0:
+			sig = att.SignRawWhere(append(append([]byte{}, p.Header...), p.Body...), pred)
+			p.Sig = sig
+		case 1:
+			sig = w.PKI.LeafKey.SignRawWhere(p.QEReport, pred)
+			p.QESig = sig
+		case 2:
+			sig = w.PKI.TcbKey.SignRawWhere(w.TcbRaw, pred)
+			w.TcbBody = world.BodyWithSig("tcbInfo", w.TcbRaw, hexs(sig))
+		case 3:
+			sig = w.PKI.TcbKey.SignRawWhere(w.QeRaw, pred)
+			w.QeBody = world.BodyWithSig("enclaveIdentity", w.QeRaw, hexs(sig))
+		}
+		w.Parts = p
+		w.BuildGetter()
+		raw := w.Raw()
+		if rp, perr := ref.ParseQuote(raw); perr != nil || !ref.LinksOf(rp).All() {
+			r.HarnessError("C11 driver self-check: quote with a shaped signature is not honest (%v)", perr)
+			return
+		}
+		if c.sig >= 2 {
+			member, body, hdr := "tcbInfo", w.TcbBody, w.TcbHdr[world.HdrTcbInfo]
+			if c.sig == 3 {
+				member, body, hdr = "enclaveIdentity", w.QeBody, w.QeHdr[world.HdrQeIdentity]
+			}
+			if !ref.DocAuthentic(body, hdr, member, []*x509.Certificate{w.PKI.Root}).Authentic {
+				r.HarnessError("C11 driver self-check: collateral with a shaped signature does not verify under the reference")
+				return
+			}
+		}
+		for _, level := range []int{world.L0, world.L1, world.L2} {
+			id := base + "/" + lvlName[level]
+			if !r.Want(id) {
+				continue
+			}
+			err := w.Verify(level)
+			if err != nil {
+				r.Violate(fmt.Sprintf("honest-rejected:signature-shape:%s:%s", sigs[c.sig], lvlName[level]), id,
+					fmt.Sprintf("an honestly signed world is rejected at %s when the %s has r=%s.. s=%s..: %s", lvlName[level], sigs[c.sig], hexs(sig[:2]), hexs(sig[32:34]), errStr(err)),
+					map[string]any{"signature": hexs(sig)})
+			}
+			r.Eval(id, true, lvlName[level]+":"+verdict(err))
+		}
+	})
+	r.SectionDone(mc.Section{Name: "signature-shapes", Evaluations: int64(done) * 3, Exhaustive: done == len(cases)})
 }
